@@ -82,7 +82,7 @@ DimOf(stat) == CASE stat = "sum" -> 0
                  [] stat \in {"pi_xy", "f2", "fst", "king", "r0", "r1"} -> 2
                  [] stat = "f3" -> 3 [] stat = "f4" -> 4
 StatDomain(stat, sh) ==
-    IF stat = "s" THEN "ok_or_err"                               \* S is computed for any spectrum by the tool
+    IF stat = "s" THEN (IF \A j \in 1..Len(sh) : sh[j] >= 2 THEN "ok" ELSE "ok_or_err")   \* S is defined for any number of populations
     ELSE IF DimOf(stat) # 0 /\ DimOf(stat) # Len(sh) THEN "err"    \* wrong dimensionality: must be an error
     ELSE IF stat \in {"king", "r0", "r1"} /\ sh # <<3, 3>> THEN "err"
     ELSE IF Admissible(stat, sh) THEN "ok"
